@@ -1,4 +1,5 @@
 import Verif.Generated.FactsOK.Common
+import Verif.Generated.FactsOK.Keys
 
 /-!
   The orchestration of Flatten in /repo's current source — the control skeletons of `Flatten`, `expand`,
